@@ -1,13 +1,15 @@
-\* thorough: <=3 nodes, cpusets over 4 CPUs (all of the property's value domain), limits {0,1,2,3,Unl}; cache cold or fully warm
+\* thorough: <=3 nodes, cpusets over 4 CPUs (all of the property's value domain), limits {0,1,2,3,Unl}; any subset of files remembered by the cache
 SPECIFICATION MCSpec
 CONSTANTS
   CacheMerged = TRUE
+  OwnUnion = TRUE
   MaxRewrites = 1
   MaxNodes = 3
   CPUs = {0, 1, 2, 3}
   LimitVals = {0, 1, 2, 3, 99}
   Kinds = {"cpuset", "limit"}
-  CacheMode = "coldwarm"
+  Algos = {"leveled", "suppress"}
+  CacheMode = "subsets"
 INVARIANT V
 INVARIANT TNAtEnd
 INVARIANT CacheAgrees
